@@ -53,7 +53,7 @@ type item struct {
 	live   bool // the counter contract exists when this transaction runs
 }
 
-var plainOK = map[string]bool{"xfer": true, "create": true, "call": true, "revert": true, "oog": true, "loop": true, "pre": true,
+var plainOK = map[string]bool{"xfer": true, "create": true, "createfail": true, "call": true, "revert": true, "oog": true, "loop": true, "pre": true,
 	"admok": true, "admshort": true, "admcall": true, "kv": true, "kvbig": true}
 
 type run struct {
@@ -496,7 +496,14 @@ func main() {
 				inBlock = true
 			case "ExecTx":
 				t := evmutil.ParseATx(st.Args[0])
-				items = append(items, item{t: t, known: true, want: mbt.Str(st.Args[1]), raw: evmutil.Concretize(t, vseed+si*7), stepIx: si})
+				// the same abstract transaction is the same signed bytes throughout one behaviour (variants differ between behaviours)
+				th := fnv.New32a()
+				th.Write([]byte(t.String()))
+				variant := vseed + int(th.Sum32()%9973)
+				if len(st.Args) > 2 {
+					variant = mbt.Int(st.Args[2])
+				}
+				items = append(items, item{t: t, known: true, want: mbt.Str(st.Args[1]), raw: evmutil.Concretize(t, variant), stepIx: si})
 			case "Commit":
 				r.runBlock(si, items, true)
 				inBlock = false
